@@ -37,7 +37,7 @@ ASSUMPTIONS = [
 ]
 MUST_REACH = {"reliable_arrivals": 1000, "duplicate_arrivals": 200, "unreliable_arrivals": 500, "acks_sent_checked": 1000,
               "sends_completed_by_appended_ack": 50, "sends_completed_by_packetack": 50, "budgets_exhausted": 5,
-              "region_level_duplicates_checked": 100, "reordered_first_arrivals": 100, "session_level_duplicates_checked": 100, "ids_checked_increasing": 1000, "long_circuit_retransmissions": 100}
+              "region_level_duplicates_checked": 100, "reordered_first_arrivals": 100, "session_level_duplicates_checked": 100, "ids_checked_increasing": 1000, "long_circuit_retransmissions": 100, "sends_of_prenumbered_messages": 50}
 
 _ser = UDPMessageSerializer()
 _es = Settings()
@@ -221,6 +221,20 @@ def _run_sequence(ctx, rng, seed):
             msgs = client_packets()
             check_ids(msgs)
             after_acks(set(blocks) | set(acks), "packetack")
+            continue
+        if r < 0.80 and rng.random() < 0.25:
+            # an unreliable send of a message object that already carries a packet id: built with one, or a message that was
+            # received earlier / sent before and is passed on; the id on the wire is the circuit's to choose
+            stale = rng.choice([0, 1, max(last_client_id - 1, 0), max(last_client_id, 0), 5])
+            m = Message("AgentPause", Block("AgentData", AgentID=session.agent_id, SessionID=session.id, SerialNum=ev), packet_id=stale)
+            try:
+                region.circuit.send(m)
+            except Exception as e:
+                ctx.violation("send-raised", "sending a message that already carried a packet id raised", dict(wit_base, exc=repr(e)[:200]))
+                continue
+            ctx.count("sends_of_prenumbered_messages")
+            history.append(("send-prenumbered", stale))
+            check_ids(client_packets())
             continue
         if r < 0.88:
             # the client sends something reliably
